@@ -6,18 +6,31 @@ PROP = 'C19'
 SRC = ['contracts/registry.c']
 ASSUME = [
     'target registry checked with at most 4 registered targets whose names are strings of at most 7 characters (longest real name: "altivec"), loops fully unwound -- labelled bounded; capacity ORC_N_TARGETS is a precondition of orc_target_register (the property does not quantify beyond it)',
-    '_orc_getenv is a nondeterministic model: unset, or a heap copy of an arbitrary string of < 8 characters (covers every registered name, unknown names and the empty string)',
+    '_orc_getenv is a nondeterministic model: unset, or a heap copy of an arbitrary string of < 8 characters (covers every registered name, unknown names and the empty string); it records which variable names are consulted; the documented name is read from doc/running.xml on every run',
     'cpuid / xgetbv are nondeterministic in CBMC (inline asm / intrinsic without model): one run covers every CPU; assumed: results are a function of (leaf, subleaf)',
 ]
 
 
+def documented_envvar():
+    """The environment variable that doc/running.xml documents for overriding the default target."""
+    txt = open('/repo/doc/running.xml').read()
+    found = []
+    for m in re.finditer(r'<formalpara id="(\w+)">(.*?)</formalpara>', txt, re.S):
+        if re.search(r'override\s+the\s+default\s+target', m.group(2)):
+            found.append(m.group(1))
+    if len(found) != 1:
+        raise core.ToolError('doc/running.xml: expected exactly one variable documented as overriding the default target, found %r' % found)
+    return found[0]
+
+
 def units(tier, seed, only=None):
+    doc = documented_envvar()
     B = 'at most 4 registered targets, names < 8 characters; loops fully unwound'
     us = [
         core.Unit('orc_target_register', SRC, 'h_target_register', enforce='orc_target_register', unwind=10, timeout=300),
         core.Unit('orc_target_get_by_name', SRC, 'h_target_get_by_name', enforce='orc_target_get_by_name', unwind=10, timeout=300, bounded=B),
-        core.Unit('orc_target_get_default', SRC, 'h_target_get_default', enforce='orc_target_get_default', unwind=10, timeout=300, bounded=B,
-                  replace=['orc_target_get_by_name'], cbmc_flags=['--memory-leak-check']),
+        core.Unit('orc_target_get_default', SRC, 'h_target_get_default', enforce='orc_target_get_default', unwind=26, timeout=300, bounded=B,
+                  replace=['orc_target_get_by_name'], cbmc_flags=['--memory-leak-check'], defines=['DOC_ENVVAR="%s"' % doc]),
     ]
     from . import c19_cpu
     us += c19_cpu.units(tier, seed)
